@@ -50,6 +50,16 @@ func c09Run(c *mc.Ctx) {
 			}
 			readerBFS(c, "C09", ReaderCfg{Kind: "bytes", DLen: sh.l, SpareCap: sh.spare, Sizes: rsizes, Retain: true, CoTenant: cot, NoNeg: true}, depth, 0)
 		}
+		// slices and regions beyond 1 MiB / 2 MiB retained across further growth
+		if c.Mine() {
+			readerBFS(c, "C09", ReaderCfg{Kind: "default", DLen: 3<<20 + 11, Env: EnvCfg{Chunk: 1<<20 + 7}, Sizes: []int{5, 1<<20 + 1, 1 << 21}, Retain: true, CoTenant: cot, NoNeg: true}, 3, 0)
+		}
+		if c.Mine() {
+			readerBFS(c, "C09", ReaderCfg{Kind: "bytes", DLen: 1 << 21, SpareCap: 0, Sizes: []int{5, 1<<20 + 1, 1 << 21}, Retain: true, CoTenant: cot, NoNeg: true}, 3, 0)
+		}
+		if c.Mine() {
+			writerBFS(c, "C09", WriterCfg{Kind: "default", Sizes: []int{5, 1<<20 + 1, 1 << 21}, Reverse: cot == 1, CoTenant: cot, PayPow2: true}, 3)
+		}
 		for _, rev := range []bool{false, true} {
 			for _, k := range []int{0, 1, 2} {
 				if !c.Mine() {
